@@ -63,6 +63,27 @@ def build(target):
         m = dimod.BinaryQuadraticModel({"a": 1.0, "b": -0.5, "c": 0.25}, {("a", "b"): 2.0, ("b", "c"): -1.5}, 0.75,
                                        "SPIN" if target == "bqm64s" else "BINARY", dtype=dt)
         return m, obs_qm
+    if target in ("bqmiso", "bqmiso32", "bqmisoobj", "bqmisos"):
+        # a NON-linear model with a degree-0 variable in the middle and at the end of the index range
+        dt = {"bqmiso": np.float64, "bqmiso32": np.float32, "bqmisoobj": object, "bqmisos": np.float64}[target]
+        m = dimod.BinaryQuadraticModel({"a": 1.0, "iso": -2.5, "b": -0.5, "c": 0.25, "end": 3.0}, {("a", "b"): 2.0, ("b", "c"): -1.5}, 0.75,
+                                       "SPIN" if target == "bqmisos" else "BINARY", dtype=dt)
+        return m, obs_qm
+    if target in ("bqmempty", "bqmlin"):
+        m = dimod.BinaryQuadraticModel({} if target == "bqmempty" else {"a": 1.0, "b": -2.0}, {}, 0.5, "BINARY")
+        return m, obs_qm
+    if target in ("qmiso", "qmempty"):
+        m = dimod.QuadraticModel()
+        if target == "qmiso":
+            m.add_variable("BINARY", "x")
+            m.add_variable("INTEGER", "iso", lower_bound=-3, upper_bound=7)
+            m.add_variable("SPIN", "s")
+            m.add_variable("INTEGER", "i", lower_bound=0, upper_bound=4)
+            m.add_variable("REAL", "end", lower_bound=-1, upper_bound=1)
+            m.add_linear("iso", 1.5)
+            m.add_quadratic("x", "s", 0.5)
+            m.add_quadratic("i", "i", 2)
+        return m, obs_qm
     if target == "bqmint":   # integer range labels: the array entry points need them
         m = dimod.BinaryQuadraticModel({0: 1.0, 1: -0.5, 2: 0.25}, {(0, 1): 2.0, (1, 2): -1.5}, 0.75, "BINARY")
         return m, obs_qm
@@ -96,6 +117,14 @@ def build(target):
         c.add_constraint(i * i - 3 * s >= -2, label="c1")
         c.add_discrete(["d0", "d1", "d2"], label="disc")
         c.add_constraint(2 * x - i == 1, label="soft", weight=2.0, penalty="linear")
+        return c, obs_cqm
+    if target == "cqmreal":
+        # a REAL self-loop, which the term iterables accept (the views' add_quadratic refuses REAL interactions)
+        c = dimod.ConstrainedQuadraticModel()
+        c.add_variable("REAL", "r", lower_bound=0, upper_bound=1)
+        c.add_variable("INTEGER", "i", lower_bound=0, upper_bound=5)
+        c.set_objective([("i", "i", 2.0), ("r", 1.0)])
+        c.add_constraint_from_iterable([("r", "r", -1.5), ("r", 2.5)], ">=", rhs=-2.5, label="m")
         return c, obs_cqm
     if target == "dqm":
         d = dimod.DiscreteQuadraticModel()
@@ -144,8 +173,14 @@ def val(spec):
             return (np.array(spec[2], dtype=spec[4] if len(spec) > 4 else None), spec[3])
         if tag == "lambda":
             return lambda *a: 0
+        if tag == "fn":
+            import operator
+            return {"max": max, "min": min, "add": operator.add, "mul": operator.mul, "first": (lambda a, b: a)}[spec[2]]
         if tag == "bqm":
             return dimod.BinaryQuadraticModel({"q": 1}, {("q", "a"): 1}, 0, spec[2])
+        if tag == "bqmx":
+            # a model over the FRESH variable 'qq' and the CQM fixture's 'x' (BINARY there): conflicting when SPIN
+            return dimod.BinaryQuadraticModel({"qq": 1, "x": -1}, {("qq", "x"): 1}, 0, spec[2])
         if tag == "sym":
             v = {"x": dimod.Binary("x"), "i": dimod.Integer("i"), "z": dimod.Binary("zz")}[spec[2]]
             return v
@@ -202,6 +237,8 @@ def main():
                 res = {"array": [fs(x) for x in np.asarray(r, dtype=object).ravel()[:16]]}
             else:
                 res = {"repr": repr(r)[:120]}
+                if isinstance(r, (int, float, np.floating, np.integer)) and not isinstance(r, bool):
+                    res["num"] = fs(r)
         except BaseException as e:   # noqa
             if isinstance(e, (KeyboardInterrupt, SystemExit)):
                 raise
@@ -225,6 +262,8 @@ def main():
             rec["observe_error"] = repr(e)[:300]
         rec["exc"] = exc
         rec["res"] = res
+        if c.get("want_before"):
+            rec["before"] = before
         # release the model (and whatever the call returned) BEFORE reporting: heap damage done by the call
         # (e.g. a write in front of a vector's buffer) surfaces when the memory is freed, and must be blamed
         # on this call, not on the next one that happens to trigger the free
